@@ -265,4 +265,8 @@ def run(tier, seed):
                     rep.check(rid4, ok, "%s: accumulator field %s.%s is only ever assigned 0 (all other updates go through the routine)" % (f.cname, fo[0], fo[1]), c.where(),
                               None, function=f.cname, obj="field-init")
         rep.check(rid4, ncall >= 2, "callers found", where, "%d call sites" % ncall, function=fn.cname, obj="callers")
+        # ---- C14.R1*: what the routine is applied to -------------------------------------------------------------------------------
+        # "CRC-16/ARC of the bytes returned" also needs the decoder to hand the routine exactly the bytes it delivered: the identity rules of C14
+        from . import c14
+        c14.identity_rules(rep, ctx, mod, prefix="C14.")
     return rep.finish(seed)
